@@ -191,6 +191,30 @@ type Pool struct {
 	items []any
 }
 
+// pools that hold objects: emptied when a simulated run starts, so that a run never
+// sees what an earlier run in the same process left behind (a fresh process has empty pools)
+var (
+	poolsMu  sync.Mutex
+	poolsAll = map[*Pool]bool{}
+)
+
+var syncMapsAll = map[*SyncMap]bool{}
+
+func resetPools() {
+	poolsMu.Lock()
+	for m := range syncMapsAll {
+		m.m = nil
+	}
+	syncMapsAll = map[*SyncMap]bool{}
+	for p := range poolsAll {
+		p.mu.Lock()
+		p.items = nil
+		p.mu.Unlock()
+	}
+	poolsAll = map[*Pool]bool{}
+	poolsMu.Unlock()
+}
+
 func (p *Pool) Get() any {
 	p.mu.Lock()
 	if n := len(p.items); n > 0 {
@@ -213,6 +237,9 @@ func (p *Pool) Put(x any) {
 	p.mu.Lock()
 	p.items = append(p.items, x)
 	p.mu.Unlock()
+	poolsMu.Lock()
+	poolsAll[p] = true
+	poolsMu.Unlock()
 }
 
 // SyncMap replaces sync.Map in instrumented code. Under the serialising
@@ -232,6 +259,10 @@ func (s *SyncMap) serial() bool {
 	}
 	if s.m == nil {
 		s.m = map[any]any{}
+		// a package-level map lives as long as the process; a simulated run is a process
+		poolsMu.Lock()
+		syncMapsAll[s] = true
+		poolsMu.Unlock()
 	}
 	Yield("sync.Map")
 	return true
